@@ -27,7 +27,7 @@ import json, math, os, signal, subprocess, itertools
 from fractions import Fraction
 from harness import lib
 from harness.lib import q, ql, qll, b
-from harness.props import c17_translate
+from harness.props import c17_translate, c17_types
 
 TOL = Fraction(1, 10 ** 10)
 FTOL = 1e-10
@@ -1296,10 +1296,26 @@ def run(ctx):
     def timed(name, thunk):
         t0 = time.time(); thunk()
         ctx.notes.append('phase %s: %.1fs' % (name, time.time() - t0))
+    if rp is not None and 'types_case' in rp:
+        c17_translate.obligations(ctx)
+        c17_types.replay(ctx, rp['types_case'])
+        return
+    # stream 'types' (harness/props/c17_types.py): every entry point in every spelling of its arguments; the driver runs in the background
+    types_stream = c17_types.Stream(ctx, c17_types.gen(ctx, thorough=not ctx.quick)) if rp is None else None
     timed('translators', lambda: c17_translate.obligations(ctx))
+    broken = [o['name'] for o in ctx.obligations if not o['ok'] and o.get('kind') == 'translator']
     if rp is None or 'pdf_case' in rp or not ({'scenario', 'request'} & set(rp)):
         timed('pdf numerics', lambda: pdf_numeric(ctx))
     if rp is None or 'scenario' in rp or not ({'pdf_case', 'request'} & set(rp)):
         timed('scenarios', lambda: scenarios(ctx))
     if rp is None or 'request' in rp:
         timed('multiprocessing', lambda: mp_part(ctx, rp.get('request') if rp else None))
+    if types_stream is not None:
+        found = types_stream.finish()
+        if broken and not found and not any(not v.get('no_input') and v.get('key') not in KNOWN_KEYS for v in ctx.violations):
+            # a source obligation no longer checks and nothing has a failing input yet: targeted search over the argument spellings with
+            # more number sets before lib reports no-failing-input-found
+            ctx.notes.append('broken source obligation(s) %r: targeted search over argument spellings (3 x 3 number sets)' % broken[:3])
+            for salt in (1, 2, 3):
+                if c17_types.Stream(ctx, c17_types.gen(ctx, thorough=True, salt=salt), procs=3).finish():
+                    break
